@@ -327,6 +327,67 @@ def run(chk):
             if nme != "_handle_frame":
                 chk.violation("C12.latch", cs[0], K.short(cs[0]), f"delivery from {nme}", "a message is delivered outside the validated frame handler")
 
+    hunt2_rules(chk, repo, hf)
+
+
+def hunt2_rules(chk, repo, hf):
+    """Rules written after the second defect hunt (F139-F142)."""
+    rd = repo.cls(MOD, WR)
+    # ---- C12.latch: the recorded violation survives the end of the connection ---------------------------------------------------------------
+    fe = rd.methods["feed_eof"]
+    qe = [c for c in prog.calls_in(fe.node) if norm.raw(c.func) == "self.queue.feed_eof"]
+    dq = repo.cls(MOD, "WebSocketDataQueue")
+    wipes = any(isinstance(a, ast.Assign) and norm.raw(a.targets[0]) == "self._exception" and isinstance(a.value, ast.Constant) and a.value.value is None for a in ast.walk(dq.methods["feed_eof"].node))
+    for c in qe:
+        if not wipes or PC.has_lit(PC.pc(c, raw=True), [("self._exc is None", True), ("self._exc is not None", False), ("self._exc", False)], True) is not None:
+            chk.ok("C12.latch", c, "the end of the connection does not erase a protocol error the application has not read yet")
+        else:
+            chk.violation("C12.latch", c, K.short(c), "if self._exc is None: self.queue.feed_eof()",
+                          "connection_lost() feeds EOF to the reader, and WebSocketDataQueue.feed_eof() resets the queue's exception: a peer that sends a violation (RSV bit, bad opcode, invalid UTF-8, oversize) and closes its socket while the handler is between two receive() calls gets CLOSED/1006 reported instead of ERROR with 1002/1007/1009 - which one depends on byte timing")
+    # ---- C12.rej.inflate: a payload that does not inflate is a protocol violation with a close code, not a bare zlib error ----------------------
+    ds = [c for c in prog.calls_in(hf.node) if isinstance(c.func, ast.Attribute) and c.func.attr == "decompress_sync"]
+    if not ds:
+        chk.analysis_error("C12.rej.inflate: the inflate call was not found in WebSocketReader._handle_frame")
+    for c in ds:
+        hs = [h for _t, h in K.enclosing_try_handlers(c) if {"ZLibBackend.error", "zlib.error", "Exception"} & set(PC.handler_types(h))]
+        if any(rc == "WebSocketError" for h in hs for _r, rc in K.raises_in(h)):
+            chk.ok("C12.rej.inflate", c, "an inflate failure is raised as WebSocketError with a close code")
+        else:
+            chk.violation("C12.rej.inflate", c, K.short(c, 60), "except ZLibBackend.error: raise WebSocketError(WSCloseCode.PROTOCOL_ERROR, ...)",
+                          "only TooManyMembersError is mapped: a frame with RSV1 whose payload is not deflate data raises the backend's zlib.error out of the reader - the application gets ERROR without a close code and the Close frame on the wire says 1000 (normal closure)")
+    # ---- C12.qsize: every queued message weighs something in the flow-control account ----------------------------------------------------------
+    weights = {}
+    for name in ("feed_data", "_read_from_buffer"):
+        m = dq.methods[name]
+        for a in ast.walk(m.node):
+            if isinstance(a, ast.Assign) and norm.raw(a.targets[0]) == "size":
+                weights[name] = a
+    if set(weights) != {"feed_data", "_read_from_buffer"}:
+        chk.analysis_error("C12.qsize: per-message weight (`size = ...`) not found in WebSocketDataQueue.feed_data / _read_from_buffer")
+    else:
+        w = {k: norm.raw(v.value) for k, v in weights.items()}
+        if w["feed_data"] != w["_read_from_buffer"]:
+            chk.violation("C12.qsize", weights["_read_from_buffer"], K.short(weights["_read_from_buffer"]), w["feed_data"], "what is added per queued message differs from what is subtracted when it is read: the flow-control account drifts")
+        elif w["feed_data"] == "data.size":
+            chk.violation("C12.qsize", weights["feed_data"], "size = data.size", "size = data.size or 1",
+                          "the queue counts payload bytes only: zero-length TEXT/BINARY/PING/PONG frames never reach the pause threshold, two million of them (4 MB on the wire) are accepted and queued, retaining 177 MB, with the transport never paused")
+        else:
+            chk.ok("C12.qsize", weights["feed_data"], f"every queued message counts at least one unit towards the pause threshold (`{w['feed_data']}`), symmetrically on read")
+    # ---- C12.afterr: after the reader ended the stream with an error later input is discarded, not hoarded -----------------------------------------
+    CP = "aiohttp/client_proto.py"
+    dr = repo.func(CP, "ResponseHandler.data_received")
+    eofif = [i for i in ast.walk(dr.node) if isinstance(i, ast.If) and norm.raw(i.test) == "eof"]
+    if not eofif:
+        chk.analysis_error("C12.afterr: the `if eof:` branch of ResponseHandler.data_received was not found")
+    for i in eofif:
+        drops = [a for a in ast.walk(i) if isinstance(a, ast.Assign) and norm.raw(a.targets[0]) == "self._payload_parser" and isinstance(a.value, ast.Constant) and a.value.value is None]
+        stops = any(M.contains(b_, "self.transport.close()") or M.contains(b_, "self.transport.abort()") or M.contains(b_, "self.close()") or M.contains(b_, "self.pause_reading()") for b_ in i.body)
+        if drops and not stops:
+            chk.violation("C12.afterr", drops[0], K.short(drops[0]), "keep the reader installed (it discards input after an error) or stop reading",
+                          "when the WebSocket reader reports a violation the client protocol uninstalls it and keeps reading: every later byte takes the `self._tail += data` branch - unbounded, quadratic copying, no back-pressure (21 MB in 4 s from a peer that floods after an unknown opcode); the server side discards such input")
+        else:
+            chk.ok("C12.afterr", i, "after a reader error the client protocol does not divert later input into an unbounded buffer")
+
 
 def alias_rule(chk, fn, rule="C12.rp.alias"):
     """Every name that is indexed with an offset local is the buffer parameter or a single-definition
